@@ -413,8 +413,74 @@ def r07h(run, S):
     run.floor("R07h", "get_field lookups in the mutator / accessor code", lookups, 6)
 
 
+def r07i(run, S):
+    """the attribute view and the key view agree after a removal: every raw removal of a field's key from the mapping is
+    followed, on every normal path to the exit, by the removal of the field's attribute from the instance storage - and a
+    membership test that guards a removal tests the key that is removed (check-then-act agreement)"""
+    removers = [m for m in ("__field_deleter__", "pop", "clear") if m in S.methods]
+    run.floor("R07i", "removal mutators of the dict-based class", len(removers), 3)
+    for name in removers:
+        f = S.methods[name]
+        fa = analysis(f)
+        raw = []
+        for n, c in fa.all_calls():
+            if is_super_call(c) and c.func.attr in ("pop", "__delitem__", "clear", "popitem"):
+                # removals of undeclared (extra) keys have no attribute counterpart
+                if any(unparse(a) in ("field", "not field") and (p is False if unparse(a) == "field" else p)
+                       for a, p in fa.facts.atoms_at(n)):
+                    continue
+                raw.append((n, c))
+        attr_rm = []
+        for n, c in fa.all_calls():
+            if isinstance(c.func, ast.Attribute) and c.func.attr in ("pop", "clear", "__delitem__") \
+                    and unparse(c.func.value).endswith("__dict__"):
+                attr_rm.append((n, c))
+        for n in fa.cfg.nodes:
+            if n.kind == "stmt" and isinstance(n.ast, ast.Delete) and "__dict__" in unparse(n.ast):
+                attr_rm.append((n, n.ast))
+        # `if K in self.__dict__: self.__dict__.pop(K)` removes K whenever it is there: the test counts as the removal
+        same_key_tests = []
+        for n2, c2 in attr_rm:
+            if isinstance(c2, ast.Call) and c2.args:
+                for b in fa.facts.branch_facts(n2):
+                    t = b.test
+                    if isinstance(t, ast.Compare) and len(t.ops) == 1 and isinstance(t.ops[0], ast.In) and b.polarity \
+                            and unparse(t.comparators[0]).endswith("__dict__") and unparse(t.left) == unparse(c2.args[0]):
+                        same_key_tests.append(b.pred[0][0])
+        # a removal made for every declared field in a loop over the parser's fields: the loop is the removal point
+        for n2, c2 in attr_rm:
+            for b in fa.cfg.dominators().get(n2, set()):
+                if b.kind == "branch" and b.is_for and b.polarity and ".fields" in unparse(b.stmt.iter):
+                    same_key_tests.append(b.pred[0][0])
+        for n, c in raw:
+            reach = fa.cfg.reach_from_succ(n, kinds=(N,), avoid=[m for m, _ in attr_rm] + same_key_tests)
+            ok = bool(attr_rm) and fa.cfg.exit not in reach
+            run.check("R07i", f, f"`{unparse(c)[:45]}` is followed by the removal of the attribute on every path", ok,
+                      construct=f"{name}: key removed, attribute kept",
+                      message=f"Schema.{name}: `{unparse(c)[:60]}` removes the field's key from the mapping but a path to "
+                              f"the exit leaves the field's value in the instance __dict__",
+                      necessity="after s.pop('A') / del s.a / s.clear() the key is gone while s.a still answers the old "
+                                "value: the attribute view and the key view disagree", node=c)
+        # check-then-act agreement on the attribute storage
+        for n, c in attr_rm:
+            if not isinstance(c, ast.Call) or not c.args:
+                continue
+            popped = unparse(c.args[0])
+            for a, p in fa.facts.atoms_at(n):
+                if isinstance(a, ast.Compare) and len(a.ops) == 1 and isinstance(a.ops[0], ast.In) and p \
+                        and unparse(a.comparators[0]).endswith("__dict__"):
+                    tested = unparse(a.left)
+                    run.check("R07i", f, f"the membership test guarding `{unparse(c)[:40]}` tests the key that is removed",
+                              tested == popped, construct=f"{name}: tests {tested}, removes {popped}",
+                              message=f"Schema.{name}: `{tested} in self.__dict__` guards `{unparse(c)}`: for a field whose "
+                                      f"name (key / alias) differs from its attribute name the test is false and the "
+                                      f"attribute is never removed",
+                              necessity="a: int = Field(alias='A'): `del s.a` removes the key 'A' but s.a still answers 3",
+                              node=c)
+
+
 def check(run):
-    run.rules_run += ["R07a", "R07b", "R07c", "R07d", "R07e", "R07f", "R07g", "R07h"]
+    run.rules_run += ["R07a", "R07b", "R07c", "R07d", "R07e", "R07f", "R07g", "R07h", "R07i"]
     run.explain("C07: (R07a) the dict subclass overrides every mutating method of dict; (R07b) every write to raw "
                 "storage (super().__setitem__, dict.update, __dict__[k]=v) stores the result of a parse call; (R07c) "
                 "every raw removal is dominated by the schema-immutable, field-immutable and is_required checks; "
@@ -432,3 +498,4 @@ def check(run):
     r07f(run, S)
     r07g(run)
     r07h(run, S)
+    r07i(run, S)
